@@ -160,6 +160,9 @@ func localCalls(w *World, ri int, alpha string) []pt.Action {
 	switch {
 	case r.cnt != nil:
 		add(pt.Action{Op: "inc", P: 1})
+		if strings.Contains(alpha, "one") {
+			break
+		}
 		add(pt.Action{Op: "inc", P: -2})
 		if rich {
 			add(pt.Action{Op: "inc", P: 2147483647})
